@@ -92,7 +92,13 @@ def hash_completeness(ctx, rule='A8'):
     # the fingerprint has to mean the same in another process: what enters it from a node is the hash of the node's
     # context *string*, taken now - never a number remembered on the node (it would be pickled along and belongs to
     # the hash seed of the process that computed it)
-    nf = fp.nested.get('_node_fingerprint')
+    # the helper (nested function, static method or private method of the class) whose single parameter is a node and
+    # which returns hash(<string of the node>)
+    cands = [f_ for f_ in unit_functions(ctx.prog, fp)[1:]
+             if len([q for q in f_.params if q not in ('self', 'cls')]) == 1 and any(
+                 isinstance(r_.value, ast.Call) and norm(r_.value.func) == 'hash' for r_ in returns_of(f_)
+                 if r_.value is not None) and 'node' in f_.name]
+    nf = fp.nested.get('_node_fingerprint') or (cands[0] if cands else None)
     if nf is None:
         raise AnalysisError('DSG.fingerprint: node fingerprint helper not found')
     rets_nf = returns_of(nf)
